@@ -44,7 +44,7 @@ class Obj:
         return bool(self.truthy)
 
     def to_rich_dict(self):
-        return {"cls": type(self).__name__, "key": self.key, "trace": self.trace, "source": self.source,
+        return {"cls": type(self).__name__, "key": self.key, "trace": self.trace, "source": safe_source(self),
                 "truthy": bool(self.truthy)}
 
 
@@ -65,6 +65,8 @@ def get_cls(name):
 def key_of(x):
     if isinstance(x, str):
         return x
+    if isinstance(x, dict):
+        return x.get("key", "")
     if isinstance(x, DataMember):
         return str(x.unique_id)
     if isinstance(x, Obj):
@@ -75,11 +77,21 @@ def key_of(x):
 
 
 def trace_of(x):
+    if isinstance(x, dict):
+        return x.get("trace", "")
     if isinstance(x, Obj):
         return x.trace
     if isinstance(x, list) and x:
         return x[0].trace
     return ""
+
+
+def safe_source(x):
+    """the .source attribute, None when absent or when looking it up raises (odd-shaped values)"""
+    try:
+        return getattr(x, "source", None)
+    except Exception:  # noqa: BLE001
+        return None
 
 
 def srcattr_of(x):
@@ -88,10 +100,45 @@ def srcattr_of(x):
     if isinstance(x, DataMember):
         return str(x.unique_id)
     if isinstance(x, Obj):
-        return x.source
+        return safe_source(x)
     if isinstance(x, list) and x:
-        return x[0].source
+        return safe_source(x[0])
     return None
+
+
+_ODD = {}
+
+
+def odd_value(kind, out, k, t):
+    """values whose source cannot be discovered: dicts with an odd "info" entry, objects whose .source / .info lookup
+    raises, objects without any source"""
+    if kind.startswith("dict_info_"):
+        info = {"none": None, "str": "text", "int": 3}[kind[len("dict_info_"):]]
+        return {"info": info, "cls": "dict", "key": k, "trace": t, "source": None, "truthy": True}
+    if (kind, out) not in _ODD:
+        base = get_cls(out)
+
+        def _init(self, key, trace):
+            self.key, self.trace, self.truthy = key, trace, True
+
+        ns = {"__init__": _init}
+        exc = {"src_typeerror": TypeError, "src_runtime": RuntimeError, "src_zerodiv": ZeroDivisionError}.get(kind)
+        if exc is not None:
+            def _source(self, _e=exc):
+                raise _e("source lookup failed")
+
+            ns["source"] = property(_source)
+        elif kind == "info_raises":
+            def _info(self):
+                raise TypeError("info lookup failed")
+
+            ns["info"] = property(_info)
+        elif kind != "nosource":
+            raise RuntimeError(f"unknown odd kind {kind}")
+        cls = type(out, (base,), ns)
+        cls.__module__ = __name__
+        _ODD[(kind, out)] = cls
+    return _ODD[(kind, out)](k, t)
 
 
 def make_main(spec, calls_file, delays):
@@ -132,6 +179,8 @@ def make_main(spec, calls_file, delays):
             return get_cls(out)(k, t, s, truthy=False)
         if a == "dropsrc":
             return get_cls(out)(k, t, None)
+        if a == "odd":
+            return odd_value(act[1], out, k, t)
         raise RuntimeError(f"unknown action {a}")
 
     return main
@@ -146,6 +195,12 @@ def build_app(spec, calls_file, delays):
         hint = get_cls(types[0])
     else:
         hint = Union[tuple(get_cls(t) for t in types)]
+    ret = spec.get("ret")
+    if not ret:
+        ret_hint = SerialisableType
+    else:
+        hs = tuple(SerialisableType if r == "SerialisableType" else get_cls(r) for r in ret)
+        ret_hint = hs[0] if len(hs) == 1 else Union[hs]
     kind = {"loader": LOADER, "generic": GENERIC}[spec["kind"]]
     deco = define_app(app_type=kind, skip_not_completed=bool(spec["skip"]))
     style = spec.get("style", "func")
@@ -173,14 +228,14 @@ def build_app(spec, calls_file, delays):
             self.opts["last"] = key_of(x)
             return base(x)
 
-        _main.__annotations__ = {"x": hint, "return": SerialisableType}
+        _main.__annotations__ = {"x": hint, "return": ret_hint}
         klass = type(spec["name"], (), {"__init__": _init, "main": _main})
         klass.__module__ = __name__
         cls = deco(klass)
         return cls(opts={"k": [1, 2]})
     main.__name__ = spec["name"]
     main.__qualname__ = spec["name"]
-    main.__annotations__ = {"x": hint, "return": SerialisableType}
+    main.__annotations__ = {"x": hint, "return": ret_hint}
     cls = deco(main)
     if style == "func_args":
         return cls({"keep": 1, "seen": []})
@@ -227,11 +282,11 @@ def canon_value(v):
     if isinstance(v, str):
         return [0, v]
     if isinstance(v, Obj):
-        return [1, type(v).__name__, v.key, v.trace, v.source, bool(v.truthy)]
+        return [1, type(v).__name__, v.key, v.trace, safe_source(v), bool(v.truthy)]
     if isinstance(v, dict) and "cls" in v:
         return [1, v["cls"], v["key"], v["trace"], v["source"], bool(v["truthy"])]
     if isinstance(v, (list, tuple)):
-        return [2, [[type(o).__name__, o.key, o.trace, o.source] if isinstance(o, Obj) else
+        return [2, [[type(o).__name__, o.key, o.trace, safe_source(o)] if isinstance(o, Obj) else
                     [o["cls"], o["key"], o["trace"], o["source"]] for o in v]]
     return ["?", repr(v)]
 
@@ -304,8 +359,13 @@ def run_phase(tmp, ph, pi, store="dir"):
     # the composed app on every input alone (fresh instances; invocations not counted)
     # the composed app on every input alone: a FRESH app per input (invocations not counted), so that a record of
     # apply_to that depends on which other inputs went through the same instance shows up as a difference
-    singles = [canon_value(build_chain(ph["specs"], os.path.join(tmp, f"single_{pi}.txt"), {})(make_input(i)))
-               for i in ph["inputs"]]
+    def single(i):
+        try:
+            return canon_value(build_chain(ph["specs"], os.path.join(tmp, f"single_{pi}.txt"), {})(make_input(i)))
+        except Exception as e:  # noqa: BLE001  -- app(x) must return a NotCompleted, never raise
+            return ["app(x) raised", type(e).__name__, str(e)[:120]]
+
+    singles = [single(i) for i in ph["inputs"]]
 
     # list(app.as_completed(inputs)) of the composed app without writer (same completion order as the apply_to below)
     asc_app = build_chain(ph["specs"], os.path.join(tmp, f"asc_{pi}.txt"), {})
